@@ -119,7 +119,9 @@ fn regs(set: crate::cfg::RegisterSet) -> String {
 }
 
 fn facts_of(pass: &str, node: &CfgNode) -> String {
-    if pass == "available" {
+    if pass == "udef" {
+        format!("\"in\":[],\"out\":{},\"udef\":[]", regs(node.u_def()))
+    } else if pass == "available" {
         format!(
             "\"in\":{},\"out\":{}",
             value_facts(node, false),
@@ -172,6 +174,22 @@ pub fn visit(pass: &'static str, node: &CfgNode, waited: bool, changed: bool) {
         waited,
         changed,
         facts_of(pass, node)
+    ));
+}
+
+/// The body of the u_def loop of the liveness pass ran for `node`: `before` is
+/// the AND over its predecessors that the loop computed, the node carries the
+/// result.
+pub fn visit_udef(node: &CfgNode, before: crate::cfg::RegisterSet, changed: bool) {
+    if !tracing() {
+        return;
+    }
+    emit(format!(
+        "{{\"ev\":\"visit\",\"pass\":\"udef\",\"id\":{},\"waited\":false,\"changed\":{},\"in\":{},\"out\":{},\"udef\":[]}}",
+        quote(&ident(node)),
+        changed,
+        regs(before),
+        regs(node.u_def())
     ));
 }
 
